@@ -334,12 +334,7 @@ def gen_model_ops(rng, nops):
             ops.append(["remint", s, idx(s), idx(s)])
         elif k == "remints":
             kind = rng.choice([0, 1, 1, 2, 3])
-            loops_possible = T.isq(s) and any(t >= 2 for t in T.vt[s])
-            if loops_possible and kind != 1:
-                kind = 1      # a filter matching a stored self-loop trips abc.h:922 (finding, see corpus/C20); not regenerated
             par = {0: str(small(rng)), 1: rng.choice([0, 1]), 2: idx(s), 3: 0}[kind]
-            if kind == 1 and loops_possible:
-                par = 1       # (u+v) odd never matches a self-loop
             ops.append(["remints", s, kind, par])
         elif k == "remvar":
             v = idx(s)
@@ -434,8 +429,7 @@ def gen_model_ops(rng, nops):
                     copy_slot(a, b)
         elif k == "qmofbqm":
             a, b = rng.choice([0, 1]), rng.choice([2, 3])
-            # the templated converting constructor asserts n > 0 (finding, see corpus/C20); not regenerated
-            ops.append(["qmofbqm", a, b, rng.choice([0, 1]) if T.n[b] > 0 else 0])
+            ops.append(["qmofbqm", a, b, rng.choice([0, 1])])
             T.n[a] = T.n[b]
             T.vt[a] = [T.vt[b]] * T.n[b]
         elif k == "ctor" and not T.isq(s) and rng.random() < 0.5:
